@@ -305,12 +305,13 @@ def _increasing(draw, m, kind):
         # a small grid of halves, ints where integral (0, 0.5, 1, 1.5, ...): endpoints and integer values coincide with what positional
         # ranks look like ([0, 0.5, 2] spans exactly 0..n-1 without being a permutation of it)
         lo = draw(st.sampled_from([0, 0, 0, -2, 1]))
-        ks = sorted(draw(st.lists(st.integers(0, 2 * m + 2), min_size=m, max_size=m, unique=True)))
-        if draw(st.booleans()) and m >= 2:
-            ks[0], ks[-1] = 0, max(2 * (m - 1), ks[-2] + 1)  # span exactly lo .. lo + m - 1
-            ks = sorted(set(ks))
-            while len(ks) < m:
-                ks = sorted(set(ks + [max(ks) + 1]))
+        if m >= 2 and draw(st.booleans()):
+            # span EXACTLY lo .. lo + m - 1 (what positional ranks span), with the values in between on the half grid
+            top = 2 * (m - 1)
+            middle = sorted(draw(st.lists(st.integers(1, top - 1), min_size=m - 2, max_size=m - 2, unique=True))) if m > 2 else []
+            ks = [0] + middle + [top]
+        else:
+            ks = sorted(draw(st.lists(st.integers(0, 2 * m + 2), min_size=m, max_size=m, unique=True)))
         out = []
         for k in ks:
             v = lo + k / 2.0
